@@ -123,6 +123,23 @@ pub broadcast proof fn axiom_r64_wf(r: Rational64)
     ensures #![trigger ratio_den::<i64>(r)] #![trigger ratio_num::<i64>(r)]
       ratio_den::<i64>(r) > 0, fits_i64(ratio_num::<i64>(r)), fits_i64(ratio_den::<i64>(r)) {}
 
+/// |x * d| >= |x| for d >= 1  (lets the solver place an out-of-i32 integer against n/d with |n| < 2^31)
+pub broadcast proof fn lemma_scale_ge(x: int, d: int)
+    requires d >= 1
+    ensures x >= 0 ==> #[trigger] (x * d) >= x, x <= 0 ==> x * d <= x
+{
+    assert(x >= 0 ==> x * d >= x) by (nonlinear_arith) requires d >= 1;
+    assert(x <= 0 ==> x * d <= x) by (nonlinear_arith) requires d >= 1;
+}
+/// 1^e == 1 and d^e > 0 for d > 0
+pub broadcast proof fn lemma_ipow_one(e: nat) ensures #[trigger] ipow(1, e) == 1 decreases e
+{ if e > 0 { lemma_ipow_one((e - 1) as nat); } }
+pub broadcast proof fn lemma_ipow_pos(d: int, e: nat) requires d > 0 ensures #[trigger] ipow(d, e) > 0 decreases e
+{ if e > 0 { lemma_ipow_pos(d, (e - 1) as nat); assert(d * ipow(d, (e - 1) as nat) > 0) by (nonlinear_arith) requires d > 0, ipow(d, (e - 1) as nat) > 0; } }
+/// value of `x.into()` for the `Into<BigInt>` sources marwood uses
+pub uninterp spec fn big_into<T>(x: T) -> int;
+#[verifier::external_body]
+pub broadcast proof fn axiom_big_into_big(b: BigInt) ensures #[trigger] big_into::<BigInt>(b) == big_val(b) {}
 // ---------------------------------------------------------------- primitive signed / and % (Rust reference: truncating)
 #[verifier::external_body]
 pub broadcast proof fn axiom_i64_div(a: i64, b: i64)
@@ -157,10 +174,24 @@ pub broadcast proof fn axiom_r32_eq(a: Rational32, b: Rational32)
 pub broadcast proof fn axiom_r32_cmp(a: Rational32, b: Rational32)
     ensures #[trigger] <Rational32 as PartialOrdSpec<Rational32>>::partial_cmp_spec(&a, &b)
         == Some(q_cmp(ratio_num(a), ratio_den(a), ratio_num(b), ratio_den(b))) {}
+// the same comparisons reached through `&T == &T` and `Rc<T> == Rc<T>` (std forwards both to T's impl)
+#[verifier::external_body]
+pub broadcast proof fn axiom_r32_ref_eq(a: &Rational32, b: &Rational32)
+    ensures #[trigger] <&Rational32 as PartialEqSpec<&Rational32>>::eq_spec(&a, &b)
+        == q_eq(ratio_num(*a), ratio_den(*a), ratio_num(*b), ratio_den(*b)) {}
+#[verifier::external_body]
+pub broadcast proof fn axiom_rc_big_eq(a: std::rc::Rc<BigInt>, b: std::rc::Rc<BigInt>)
+    ensures #[trigger] <std::rc::Rc<BigInt> as PartialEqSpec<std::rc::Rc<BigInt>>>::eq_spec(&a, &b) == (big_val(*a) == big_val(*b)) {}
+#[verifier::external_body]
+pub broadcast proof fn axiom_rc_big_ref_eq(a: &std::rc::Rc<BigInt>, b: &std::rc::Rc<BigInt>)
+    ensures #[trigger] <&std::rc::Rc<BigInt> as PartialEqSpec<&std::rc::Rc<BigInt>>>::eq_spec(&a, &b) == (big_val(**a) == big_val(**b)) {}
 #[verifier::external_body]
 #[verifier::allow(broadcast_without_trigger)]
 pub broadcast proof fn axiom_cmp_obeys()
     ensures <BigInt as PartialEqSpec<BigInt>>::obeys_eq_spec(),
+            <&Rational32 as PartialEqSpec<&Rational32>>::obeys_eq_spec(),
+            <std::rc::Rc<BigInt> as PartialEqSpec<std::rc::Rc<BigInt>>>::obeys_eq_spec(),
+            <&std::rc::Rc<BigInt> as PartialEqSpec<&std::rc::Rc<BigInt>>>::obeys_eq_spec(),
             <BigInt as PartialOrdSpec<BigInt>>::obeys_partial_cmp_spec(),
             <Rational32 as PartialEqSpec<Rational32>>::obeys_eq_spec(),
             <Rational32 as PartialOrdSpec<Rational32>>::obeys_partial_cmp_spec(),
@@ -206,9 +237,9 @@ pub broadcast group group_num {
     axiom_int_of_i32, axiom_int_of_i64, axiom_tmin, axiom_r32_wf, axiom_r64_wf,
     axiom_i64_div, axiom_i64_rem,
     axiom_obeys, @@AX_NAMES@@,
-    axiom_big_eq, axiom_big_cmp, axiom_r32_eq, axiom_r32_cmp, axiom_cmp_obeys,
+    axiom_big_eq, axiom_big_cmp, axiom_r32_eq, axiom_r32_cmp, axiom_cmp_obeys, axiom_r32_ref_eq, axiom_rc_big_eq, axiom_rc_big_ref_eq,
     axiom_prim_int_big, axiom_prim_int_i64, axiom_prim_int_u32, axiom_prim_int_r32, axiom_prim_f64_total,
-    vstd::arithmetic::mul::lemma_mul_is_commutative,
+    vstd::arithmetic::mul::lemma_mul_is_commutative, lemma_scale_ge, lemma_ipow_one, lemma_ipow_pos, axiom_big_into_big,
 }
 
 // ---------------------------------------------------------------- assumed specs of `num` / `core` functions
@@ -241,23 +272,23 @@ pub assume_specification<T> [Ratio::<T>::denom] (a: &Ratio<T>) -> (r: &T)
 /// num-rational 0.4 checked ops return `None` when an intermediate (lcm, scaled numerators, sum,
 /// cross products after gcd cancellation) overflows T -- which can happen although the reduced
 /// result would fit; the predicates name exactly "the library gave up"
-pub uninterp spec fn ratio_add_none<T>(a: Ratio<T>, b: Ratio<T>) -> bool;
-pub uninterp spec fn ratio_sub_none<T>(a: Ratio<T>, b: Ratio<T>) -> bool;
-pub uninterp spec fn ratio_mul_none<T>(a: Ratio<T>, b: Ratio<T>) -> bool;
-pub uninterp spec fn ratio_div_none<T>(a: Ratio<T>, b: Ratio<T>) -> bool;
+pub uninterp spec fn ratio_add_none<T>(an: int, ad: int, bn: int, bd: int) -> bool;
+pub uninterp spec fn ratio_sub_none<T>(an: int, ad: int, bn: int, bd: int) -> bool;
+pub uninterp spec fn ratio_mul_none<T>(an: int, ad: int, bn: int, bd: int) -> bool;
+pub uninterp spec fn ratio_div_none<T>(an: int, ad: int, bn: int, bd: int) -> bool;
 pub assume_specification<T: Clone + num::Integer + num::CheckedMul + num::CheckedAdd> [<Ratio<T> as num::CheckedAdd>::checked_add] (a: &Ratio<T>, b: &Ratio<T>) -> (r: Option<Ratio<T>>)
     ensures (r matches Some(v) ==> ratio_den(v) > 0 && q_eq(ratio_num(v), ratio_den(v), ratio_num(*a) * ratio_den(*b) + ratio_num(*b) * ratio_den(*a), ratio_den(*a) * ratio_den(*b))),
-            (r is None <==> ratio_add_none(*a, *b));
+            (r is None <==> ratio_add_none::<T>(ratio_num(*a), ratio_den(*a), ratio_num(*b), ratio_den(*b)));
 pub assume_specification<T: Clone + num::Integer + num::CheckedMul + num::CheckedSub> [<Ratio<T> as num::CheckedSub>::checked_sub] (a: &Ratio<T>, b: &Ratio<T>) -> (r: Option<Ratio<T>>)
     ensures (r matches Some(v) ==> ratio_den(v) > 0 && q_eq(ratio_num(v), ratio_den(v), ratio_num(*a) * ratio_den(*b) - ratio_num(*b) * ratio_den(*a), ratio_den(*a) * ratio_den(*b))),
-            (r is None <==> ratio_sub_none(*a, *b));
+            (r is None <==> ratio_sub_none::<T>(ratio_num(*a), ratio_den(*a), ratio_num(*b), ratio_den(*b)));
 pub assume_specification<T: Clone + num::Integer + num::CheckedMul> [<Ratio<T> as num::CheckedMul>::checked_mul] (a: &Ratio<T>, b: &Ratio<T>) -> (r: Option<Ratio<T>>)
     ensures (r matches Some(v) ==> ratio_den(v) > 0 && q_eq(ratio_num(v), ratio_den(v), ratio_num(*a) * ratio_num(*b), ratio_den(*a) * ratio_den(*b))),
-            (r is None <==> ratio_mul_none(*a, *b));
+            (r is None <==> ratio_mul_none::<T>(ratio_num(*a), ratio_den(*a), ratio_num(*b), ratio_den(*b)));
 /// `checked_div` is total: a zero divisor yields `None`
 pub assume_specification<T: Clone + num::Integer + num::CheckedMul> [<Ratio<T> as num::CheckedDiv>::checked_div] (a: &Ratio<T>, b: &Ratio<T>) -> (r: Option<Ratio<T>>)
     ensures (r matches Some(v) ==> ratio_num(*b) != 0 && ratio_den(v) > 0 && q_eq(ratio_num(v), ratio_den(v), ratio_num(*a) * ratio_den(*b), ratio_den(*a) * ratio_num(*b))),
-            (r is None <==> ratio_num(*b) == 0 || ratio_div_none(*a, *b));
+            (r is None <==> ratio_num(*b) == 0 || ratio_div_none::<T>(ratio_num(*a), ratio_den(*a), ratio_num(*b), ratio_den(*b)));
 pub assume_specification<T: Clone + num::Integer> [Ratio::<T>::is_integer] (a: &Ratio<T>) -> (r: bool)
     ensures r <==> ratio_den(*a) == 1;
 pub assume_specification<T: Clone + num::Integer> [Ratio::<T>::to_integer] (a: &Ratio<T>) -> (r: T)
@@ -280,17 +311,24 @@ pub assume_specification [<BigInt as From<u64>>::from] (a: u64) -> (r: BigInt) e
 pub assume_specification [<BigInt as num::Signed>::abs] (a: &BigInt) -> (r: BigInt) ensures big_val(r) == iabs(big_val(*a));
 pub assume_specification [BigInt::pow] (a: &BigInt, e: u32) -> (r: BigInt) ensures big_val(r) == ipow(big_val(*a), e as nat);
 
+pub assume_specification<T: Clone + num::Integer> [Ratio::<T>::pow] (a: &Ratio<T>, e: i32) -> (r: Ratio<T>)
+    where for<'a> &'a T: num::traits::Pow<u32, Output = T>
+    requires e >= 0, tmin::<T>() <= ipow(ratio_num(*a), e as nat) <= tmax::<T>(), tmin::<T>() <= ipow(ratio_den(*a), e as nat) <= tmax::<T>(),
+    ensures ratio_num(r) == ipow(ratio_num(*a), e as nat), ratio_den(r) == ipow(ratio_den(*a), e as nat);
 pub assume_specification [f64::floor] (a: f64) -> f64;
 pub assume_specification [f64::ceil] (a: f64) -> f64;
 pub assume_specification [f64::round] (a: f64) -> f64;
 pub assume_specification [f64::trunc] (a: f64) -> f64;
-pub assume_specification [f64::abs] (a: f64) -> f64;
+pub assume_specification [<f64 as num::Signed>::abs] (a: &f64) -> f64;
 pub assume_specification [f64::powf] (a: f64, b: f64) -> f64;
 } // mod numspec
 pub use numspec::*;
 broadcast use numspec::group_num;
 
 // ---------------------------------------------------------------- the value model of `Number`
+// `enum Number` stays outside verus!{} (its derived Clone needs an assumed spec); transparent external type
+#[verifier::external_type_specification]
+pub struct ExNumber(Number);
 pub open spec fn is_exact(n: Number) -> bool { !(n is Float) }
 /// exact value of an exact number is vnum / vden, vden > 0
 pub open spec fn vnum(n: Number) -> int {
@@ -314,6 +352,54 @@ pub open spec fn is_quot(r: Number, a: Number, b: Number) -> bool {
     q_eq(vnum(r), vden(r), vnum(a) * vden(b), vden(a) * vnum(b))
 }
 pub open spec fn same_value(r: Number, a: Number) -> bool { q_eq(vnum(r), vden(r), vnum(a), vden(a)) }
+/// Where the implementation gives up exactness although both operands are exact.  Each disjunct is
+/// either "num-rational's checked op returned None" or a whole representation pair that marwood sends
+/// to floating point; every one that is wider than "the result is not representable" is a KNOWN
+/// FINDING (see known_findings.txt) -- anything *else* going inexact fails the (E) clause.
+pub open spec fn gives_up_add(a: Number, b: Number) -> bool {
+    match (a, b) {
+        (Number::Fixnum(x), Number::Rational(q)) => !fits_i32(x as int) || ratio_add_none::<i32>(x as int, 1, r32_num(q), r32_den(q)),
+        (Number::Rational(q), Number::Fixnum(x)) => !fits_i32(x as int) || ratio_add_none::<i32>(x as int, 1, r32_num(q), r32_den(q)),
+        (Number::BigInt(_), Number::Rational(q)) => r32_den(q) != 1,
+        (Number::Rational(q), Number::BigInt(_)) => r32_den(q) != 1,
+        (Number::Rational(p), Number::Rational(q)) => ratio_add_none::<i32>(r32_num(p), r32_den(p), r32_num(q), r32_den(q)),
+        _ => false,
+    }
+}
+pub open spec fn gives_up_sub(a: Number, b: Number) -> bool {
+    match (a, b) {
+        (Number::Fixnum(x), Number::Rational(q)) => !fits_i32(x as int) || ratio_sub_none::<i32>(x as int, 1, r32_num(q), r32_den(q)),
+        (Number::Rational(q), Number::Fixnum(x)) => !fits_i32(x as int) || ratio_sub_none::<i32>(r32_num(q), r32_den(q), x as int, 1),
+        (Number::BigInt(_), Number::Rational(q)) => r32_den(q) != 1,
+        (Number::Rational(q), Number::BigInt(_)) => r32_den(q) != 1,
+        (Number::Rational(p), Number::Rational(q)) => ratio_sub_none::<i32>(r32_num(p), r32_den(p), r32_num(q), r32_den(q)),
+        _ => false,
+    }
+}
+pub open spec fn gives_up_mul(a: Number, b: Number) -> bool {
+    match (a, b) {
+        (Number::Fixnum(x), Number::Rational(q)) => !fits_i32(x as int) || ratio_mul_none::<i32>(x as int, 1, r32_num(q), r32_den(q)),
+        (Number::Rational(q), Number::Fixnum(x)) => !fits_i32(x as int) || ratio_mul_none::<i32>(x as int, 1, r32_num(q), r32_den(q)),
+        (Number::BigInt(_), Number::Rational(q)) => r32_den(q) != 1,
+        (Number::Rational(q), Number::BigInt(_)) => r32_den(q) != 1,
+        (Number::Rational(p), Number::Rational(q)) => ratio_mul_none::<i32>(r32_num(p), r32_den(p), r32_num(q), r32_den(q)),
+        _ => false,
+    }
+}
+/// `/` builds a Rational32 directly, so any integer operand outside i32 goes inexact
+pub open spec fn gives_up_div(a: Number, b: Number) -> bool {
+    match (a, b) {
+        (Number::Rational(p), Number::Rational(q)) => ratio_div_none::<i32>(r32_num(p), r32_den(p), r32_num(q), r32_den(q)),
+        (Number::Rational(p), _) => !fits_i32(vnum(b)) || ratio_div_none::<i32>(r32_num(p), r32_den(p), vnum(b), 1),
+        (_, Number::Rational(q)) => !fits_i32(vnum(a)) || ratio_div_none::<i32>(vnum(a), 1, r32_num(q), r32_den(q)),
+        _ => !fits_i32(vnum(a)) || !fits_i32(vnum(b)) || div_new_gives_up(vnum(a), vnum(b)),
+    }
+}
+/// integer / integer where `Ratio::new` cannot negate (i32::MIN with a negative divisor)
+pub open spec fn div_new_gives_up(n: int, d: int) -> bool { d < 0 && (n == i32::MIN || d == i32::MIN) }
+/// order of two exact numbers
+pub open spec fn v_cmp(a: Number, b: Number) -> Ordering { q_cmp(vnum(a), vden(a), vnum(b), vden(b)) }
+pub open spec fn v_eq(a: Number, b: Number) -> bool { q_eq(vnum(a), vden(a), vnum(b), vden(b)) }
 /// exact zero, or any float (the `/` and `%` guards in the builtins reject a divisor that `==` 0)
 pub open spec fn nonzero_divisor(n: Number) -> bool { is_exact(n) ==> vnum(n) != 0 }
 
@@ -341,20 +427,63 @@ impl vstd::std_specs::convert::FromSpecImpl<u64> for Number {
     open spec fn obeys_from_spec() -> bool { false }
     open spec fn from_spec(v: u64) -> Number { arbitrary() }
 }
+pub assume_specification [<Number as Clone>::clone] (a: &Number) -> (r: Number) ensures r == *a;
+impl vstd::std_specs::ops::AddSpecImpl<Number> for Number {
+    open spec fn obeys_add_spec() -> bool { false }
+    open spec fn add_req(self, rhs: Number) -> bool { true }
+    open spec fn add_spec(self, rhs: Number) -> Number { arbitrary() }
+}
 impl<'a> vstd::std_specs::ops::AddSpecImpl<&'a Number> for &'a Number {
     open spec fn obeys_add_spec() -> bool { false }
     open spec fn add_req(self, rhs: &'a Number) -> bool { true }
     open spec fn add_spec(self, rhs: &'a Number) -> Number { arbitrary() }
+}
+impl vstd::std_specs::ops::SubSpecImpl<Number> for Number {
+    open spec fn obeys_sub_spec() -> bool { false }
+    open spec fn sub_req(self, rhs: Number) -> bool { true }
+    open spec fn sub_spec(self, rhs: Number) -> Number { arbitrary() }
 }
 impl<'a> vstd::std_specs::ops::SubSpecImpl<&'a Number> for &'a Number {
     open spec fn obeys_sub_spec() -> bool { false }
     open spec fn sub_req(self, rhs: &'a Number) -> bool { true }
     open spec fn sub_spec(self, rhs: &'a Number) -> Number { arbitrary() }
 }
+impl vstd::std_specs::ops::MulSpecImpl<Number> for Number {
+    open spec fn obeys_mul_spec() -> bool { false }
+    open spec fn mul_req(self, rhs: Number) -> bool { true }
+    open spec fn mul_spec(self, rhs: Number) -> Number { arbitrary() }
+}
 impl<'a> vstd::std_specs::ops::MulSpecImpl<&'a Number> for &'a Number {
     open spec fn obeys_mul_spec() -> bool { false }
     open spec fn mul_req(self, rhs: &'a Number) -> bool { true }
     open spec fn mul_spec(self, rhs: &'a Number) -> Number { arbitrary() }
+}
+impl vstd::std_specs::cmp::PartialEqSpecImpl for Number {
+    open spec fn obeys_eq_spec() -> bool { false }
+    open spec fn eq_spec(&self, other: &Number) -> bool { arbitrary() }
+}
+impl vstd::std_specs::cmp::PartialOrdSpecImpl for Number {
+    open spec fn obeys_partial_cmp_spec() -> bool { false }
+    open spec fn partial_cmp_spec(&self, other: &Number) -> Option<Ordering> { arbitrary() }
+}
+/// `%` is only specified (and only called by remainder / modulo) on integers with a non-zero divisor
+pub open spec fn rem_domain(a: Number, b: Number) -> bool {
+    nonzero_divisor(b) && (is_exact(a) ==> is_int(a)) && (is_exact(b) ==> is_int(b))
+}
+impl vstd::std_specs::ops::RemSpecImpl<Number> for Number {
+    open spec fn obeys_rem_spec() -> bool { false }
+    open spec fn rem_req(self, rhs: Number) -> bool { rem_domain(self, rhs) }
+    open spec fn rem_spec(self, rhs: Number) -> Option<Number> { arbitrary() }
+}
+impl<'a> vstd::std_specs::ops::RemSpecImpl<&'a Number> for &'a Number {
+    open spec fn obeys_rem_spec() -> bool { false }
+    open spec fn rem_req(self, rhs: &'a Number) -> bool { rem_domain(*self, *rhs) }
+    open spec fn rem_spec(self, rhs: &'a Number) -> Option<Number> { arbitrary() }
+}
+impl vstd::std_specs::ops::DivSpecImpl<Number> for Number {
+    open spec fn obeys_div_spec() -> bool { false }
+    open spec fn div_req(self, rhs: Number) -> bool { nonzero_divisor(rhs) }
+    open spec fn div_spec(self, rhs: Number) -> Number { arbitrary() }
 }
 impl<'a> vstd::std_specs::ops::DivSpecImpl<&'a Number> for &'a Number {
     open spec fn obeys_div_spec() -> bool { false }
@@ -372,7 +501,7 @@ UNITS = [{
     'name': 'number',
     'file': 'src/number.rs',
     'wraps_types': ['Number'],
-    'wrap': ['enum Number'],
+    'wrap': [],
     'prelude': PRELUDE,
     'fns': {
         'impl From<i64> for Number::from': {'props': ['C08']},
@@ -383,24 +512,137 @@ UNITS = [{
         'impl Add for &Number::add': {
             'props': ['C08', 'C06'],
             'ensures': [
+                (S, 'is_exact(*self) && is_exact(*rhs) ==> is_exact(r) || gives_up_add(*self, *rhs)'),
                 (S, 'is_exact(r) ==> is_exact(*self) && is_exact(*rhs) && is_sum(r, *self, *rhs)'),
+            ],
+        },
+        'impl Add for Number::add': {
+            'props': ['C08', 'C06'],
+            'ensures': [
+                (S, 'is_exact(self) && is_exact(rhs) ==> is_exact(r) || gives_up_add(self, rhs)'),
+                (S, 'is_exact(r) ==> is_exact(self) && is_exact(rhs) && is_sum(r, self, rhs)'),
             ],
         },
         'impl Sub for &Number::sub': {
             'props': ['C08', 'C06'],
             'ensures': [
+                (S, 'is_exact(*self) && is_exact(*rhs) ==> is_exact(r) || gives_up_sub(*self, *rhs)'),
                 (S, 'is_exact(r) ==> is_exact(*self) && is_exact(*rhs) && is_diff(r, *self, *rhs)'),
             ],
         },
         'impl Mul for &Number::mul': {
             'props': ['C08', 'C06'],
             'ensures': [
+                (S, 'is_exact(*self) && is_exact(*rhs) ==> is_exact(r) || gives_up_mul(*self, *rhs)'),
                 (S, 'is_exact(r) ==> is_exact(*self) && is_exact(*rhs) && is_prod(r, *self, *rhs)'),
             ],
+        },
+        'impl Sub for Number::sub': {
+            'props': ['C08', 'C06'],
+            'ensures': [
+                (S, 'is_exact(self) && is_exact(rhs) ==> is_exact(r) || gives_up_sub(self, rhs)'),
+                (S, 'is_exact(r) ==> is_exact(self) && is_exact(rhs) && is_diff(r, self, rhs)'),
+            ],
+        },
+        'impl Mul for Number::mul': {
+            'props': ['C08', 'C06'],
+            'ensures': [
+                (S, 'is_exact(self) && is_exact(rhs) ==> is_exact(r) || gives_up_mul(self, rhs)'),
+                (S, 'is_exact(r) ==> is_exact(self) && is_exact(rhs) && is_prod(r, self, rhs)'),
+            ],
+        },
+        'impl Div for Number::div': {
+            'props': ['C08', 'C06'],
+            'ensures': [
+                (S, 'is_exact(self) && is_exact(rhs) ==> is_exact(r) || gives_up_div(self, rhs)'),
+                (S, 'is_exact(r) ==> is_exact(self) && is_exact(rhs) && is_quot(r, self, rhs)'),
+            ],
+        },
+        'impl Rem for Number::rem': {
+            'props': ['C08', 'C06'],
+            'ensures': [
+                (S, 'is_int(self) && is_int(rhs) ==> (r matches Some(v) && is_int(v) && vnum(v) == trem(vnum(self), vnum(rhs)))'),
+            ],
+        },
+        'impl From<u64> for Number::from': {
+            'props': ['C08', 'C06'],
+            'ensures': [(S, 'is_int(r) && vnum(r) == num')],
+        },
+        'impl Number::new_bigint': {
+            'props': ['C08'], 'trusted': True,
+            'ensures': [(S, 'r matches Number::BigInt(b) && big_val(*b) == big_into::<T>(num)')],
+        },
+        'impl Number::quotient': {
+            'props': ['C08', 'C06'],
+            'requires': ['nonzero_divisor(*rhs)'],
+            'ensures': [
+                (S, 'is_int(*self) && is_int(*rhs) ==> (r matches Some(v) && is_int(v) && vnum(v) == tdiv(vnum(*self), vnum(*rhs)))'),
+            ],
+        },
+        'impl Rem for &Number::rem': {
+            'props': ['C08', 'C06'],
+            'ensures': [
+                (S, 'is_int(*self) && is_int(*rhs) ==> (r matches Some(v) && is_int(v) && vnum(v) == trem(vnum(*self), vnum(*rhs)))'),
+            ],
+        },
+        'impl Number::modulo': {
+            'props': ['C08', 'C06'],
+            'requires': ['rem_domain(*self, *rhs)'],
+            'ensures': [
+                (S, 'is_int(*self) && is_int(*rhs) ==> (r matches Some(v) && is_int(v) && vnum(v) == fmod(vnum(*self), vnum(*rhs)))'),
+            ],
+        },
+        'impl Number::abs': {
+            'props': ['C08', 'C06'],
+            'ensures': [
+                (S, 'is_exact(r) <==> is_exact(*self)'),
+                (S, 'is_exact(*self) ==> vden(r) == vden(*self) && vnum(r) == iabs(vnum(*self))'),
+            ],
+        },
+        'impl Number::floor': {
+            'props': ['C08', 'C06'],
+            'ensures': [
+                (S, 'is_exact(r) <==> is_exact(*self)'),
+                (S, 'is_exact(*self) ==> is_int(r) && vnum(r) == fdiv(vnum(*self), vden(*self))'),
+            ],
+        },
+        'impl Number::ceil': {
+            'props': ['C08', 'C06'],
+            'ensures': [
+                (S, 'is_exact(r) <==> is_exact(*self)'),
+                (S, 'is_exact(*self) ==> is_int(r) && vnum(r) == cdiv(vnum(*self), vden(*self))'),
+            ],
+        },
+        'impl Number::truncate': {
+            'props': ['C08', 'C06'],
+            'ensures': [
+                (S, 'is_exact(r) <==> is_exact(*self)'),
+                (S, 'is_exact(*self) ==> is_int(r) && vnum(r) == tdiv(vnum(*self), vden(*self))'),
+            ],
+        },
+        'impl Number::pow': {
+            'props': ['C08', 'C06'],
+            'ensures': [
+                (S, 'is_exact(r) ==> is_exact(*self) && vnum(r) == ipow(vnum(*self), exp as nat) && vden(r) == ipow(vden(*self), exp as nat)'),
+                (S, 'is_exact(*self) && !(*self is Rational) ==> is_exact(r)'),
+            ],
+        },
+        'impl Number::is_integer': {
+            'props': ['C08', 'C09', 'C06'],
+            'ensures': [(S, 'is_exact(*self) ==> r == is_int(*self)')],
+        },
+        'impl PartialEq for Number::eq': {
+            'props': ['C09', 'C06'],
+            'ensures': [(['C09'], 'is_exact(*self) && is_exact(*rhs) ==> r == v_eq(*self, *rhs)')],
+        },
+        'impl PartialOrd for Number::partial_cmp': {
+            'props': ['C09', 'C06'],
+            'ensures': [(['C09'], 'is_exact(*self) && is_exact(*rhs) ==> r == Some(v_cmp(*self, *rhs))')],
         },
         'impl Div for &Number::div': {
             'props': ['C08', 'C06'],
             'ensures': [
+                (S, 'is_exact(*self) && is_exact(*rhs) ==> is_exact(r) || gives_up_div(*self, *rhs)'),
                 (S, 'is_exact(r) ==> is_exact(*self) && is_exact(*rhs) && is_quot(r, *self, *rhs)'),
             ],
         },
